@@ -198,6 +198,26 @@ def other_obs(tier, rnd):
     return obs
 
 
+def metamodule_obs(tier, rnd):
+    """MetaModule files: user-defined controllers mapped onto every controller kind (incl. negative-minimum ranges), stored words symbolic"""
+    from vf.props import c15
+    obs = []
+    for n in ((3,) if tier == "quick" else (1, 3, 7)):
+        params, lines = c15.build_mm(n, rnd)
+        code = "\n".join("    " + l for l in lines)
+        for ctx in ("synth", "project"):
+            wrap = "X = save_bytes(Synth(mm))" if ctx == "synth" else "p = Project()\n    p.attach_module(mm)\n    X = save_bytes(p)"
+            body = f"""
+{code}
+    {wrap}
+    return cycle(X)
+"""
+            obs.append(Ob(f"metamodule.{ctx}.n{n}", build(params, body, setup=SETUP + c15.SETUP.split("from vf import refformat as RF")[1]),
+                          f"a MetaModule {ctx} with {n} user-defined controllers mapped onto range / negative-minimum / boolean / enum / compact targets: fixed point after one load/save cycle",
+                          group="metamodule", shape=f"{ctx}; API-built MetaModule, n={n}", symbolic="embedded controller values (hence the stored user-defined words), embedded header", timeout=600))
+    return obs
+
+
 def obligations(tier, seed):
     rnd = random.Random(seed)
-    return cval_obs(tier, rnd) + fixture_obs(tier, rnd) + other_obs(tier, rnd)
+    return cval_obs(tier, rnd) + fixture_obs(tier, rnd) + other_obs(tier, rnd) + metamodule_obs(tier, rnd)
